@@ -1,19 +1,27 @@
 /-
-  Model/EnvLegacy — the environment machine AS IT WAS before the repair
-  "fix: after_STOP_ACTIVITY stamps run_end_completion_time_ms only if it is still empty" (C10).
+  Model/EnvLegacy — the environment machine AS IT WAS before the repairs
+  "fix: after_STOP_ACTIVITY stamps run_end_completion_time_ms only if it is still empty" (C10) and
+  "fix: handleHooks visits the await weight of a call it starts at the same trigger" (C08).
 
   NOT the code as it is. `Model/Env.lean` describes the code as it is (`bkAfter … STOP_ACTIVITY` is the guarded
-  writer `setEoeorIfEmpty`, like GO_ERROR's branch and the teardown). This file keeps the old behaviour available
-  as a configuration so that the former refutation (`C10_finding_end_stamp_rewritten`) stays a true statement
-  about the code as it was:
+  writer `setEoeorIfEmpty`, like GO_ERROR's branch and the teardown; `weightsFor` holds the await weights of the
+  calls a pass is about to start). This file keeps the old behaviours available as a configuration so that the
+  former refutations (`C10_finding_end_stamp_rewritten`, `C08_finding_await_weight_not_visited`) stay true
+  statements about the code as it was:
 
     * `RunCfg.stopStampGuarded` — does the STOP_ACTIVITY branch of after_event write the end-completion time only
       when the key is present and empty? `codeRunCfg` = yes (the code as it is), `legacyRunCfg` = no.
-    * `bkAfterOf`, `afterEventOf`, `fsmEventOf`, `controlApiOf`, `stepOf`, `finalEnvOf`: the chain
-      after_event → Sm.Event → TryTransition / ControlEnvironment glue → one request, line for line the
-      definitions of Model/Env.lean with `bkAfterOf c` in the place of `bkAfter`.
-    * `stepOf_code` (Proofs/EnvRun.lean): `stepOf codeRunCfg = step` — the chain with the switch ON is the model of the
-      code as it is, so the legacy chain differs from it in that one write and in nothing else.
+    * `RunCfg.awaitWeightsUpFront` — does handleHooks put, before it starts anything, the await weight of every
+      call triggered at this moment whose await names this same moment among the weights it visits?
+      `codeRunCfg` = yes (the code as it is), `legacyAwaitCfg` = no (only trigger weights and the weights of calls
+      already pending). Each legacy configuration switches ONE repair off.
+    * `weightsForOf`, `handleHooksOf`, `beforeEventOf`, `leaveStateOf`, `enterStateOf`, `bkAfterOf`, `afterEventOf`,
+      `fsmEventOf`, `controlApiOf`, `teardownOf`, `stepOf`, `finalEnvOf`: the chain one pass → the four FSM
+      callbacks → Sm.Event → TryTransition / ControlEnvironment glue / TeardownEnvironment → one request, line
+      for line the definitions of Model/Env.lean with `handleHooksOf c` in the place of `handleHooks` and
+      `bkAfterOf c` in the place of `bkAfter`.
+    * `stepOf_code` (Proofs/EnvRunOnce.lean): `stepOf codeRunCfg = step` — the chain with the switches ON is the model
+      of the code as it is, so a legacy chain differs from it in its one switch and in nothing else.
 -/
 import ControlModel.Model.Env
 
@@ -22,12 +30,89 @@ namespace EnvM
 structure RunCfg where
   /-- after_STOP_ACTIVITY writes run_end_completion_time_ms only if it is present and empty -/
   stopStampGuarded : Bool
+  /-- handleHooks counts the await weight of a call it is about to start (await moment = this trigger) among
+      the weights of the pass, before anything is started -/
+  awaitWeightsUpFront : Bool := true
   deriving DecidableEq, Repr
 
 /-- the code as it is -/
-def codeRunCfg : RunCfg := { stopStampGuarded := true }
+def codeRunCfg : RunCfg := { stopStampGuarded := true, awaitWeightsUpFront := true }
 /-- the code as it was: after_STOP_ACTIVITY sets the stamp unconditionally -/
 def legacyRunCfg : RunCfg := { stopStampGuarded := false }
+/-- the code as it was: the weights of a pass are the trigger weights and the weights of calls ALREADY pending -/
+def legacyAwaitCfg : RunCfg := { stopStampGuarded := true, awaitWeightsUpFront := false }
+
+/-! ### one pass of handleHooks -/
+
+/-- The weights handleHooks visited as it was: those of hooks triggered at `m` and of calls pending an await
+    at `m` — computed BEFORE anything is started, so the await weight of a call started in this very pass is
+    among them only if something else put it there. -/
+def weightsForLegacy (env : Env) (hooks : List Hook) (m : Moment) (pred : Int → Bool) : List Int :=
+  let hw := (hooks.filter (fun h => h.trig = m)).map (·.tw)
+  let pw := (env.pending.filter (fun p => p.1.1 = m ∧ !p.2.isEmpty)).map (·.1.2)
+  (sortDedup (hw ++ pw)).filter pred
+
+def weightsForOf (c : RunCfg) (env : Env) (hooks : List Hook) (m : Moment) (pred : Int → Bool) : List Int :=
+  if c.awaitWeightsUpFront then weightsFor env hooks m pred else weightsForLegacy env hooks m pred
+
+def handleHooksOf (c : RunCfg) (env : Env) (hooks : List Hook) (m : Moment) (pred : Int → Bool) : Env × List Step × Nat :=
+  handleWeights env hooks m (weightsForOf c env hooks m pred)
+
+/-- What fills the set of weights of a pass before its loop starts (`allWeightsSet[…] = …` in handleHooks), as
+    the model has it: (the key written, the `range` statements it stands in from the outside in, the conditions
+    it stands under). Row 1 = `hw`, row 2 = `aw` (present iff `c.awaitWeightsUpFront`), row 3 = `pw` of
+    `weightsFor`; `!h.isTask` is `FilterCalls()`, `h.await = m` is `awaitName == trigger`. -/
+def weightSources (c : RunCfg) : List (String × List String × List String) :=
+  [("k", [if c.awaitWeightsUpFront then "k, hooks := range hooksMapForTrigger" else "k := range hooksMapForTrigger"], [])] ++
+  (if c.awaitWeightsUpFront then
+    [("awaitWeight", ["k, hooks := range hooksMapForTrigger", "_, call := range hooks.FilterCalls()"],
+      ["awaitName, awaitWeight := callable.ParseTriggerExpression(call.GetTraits().Await); awaitName == trigger"])]
+   else []) ++
+  [("k", ["k := range callsMapForAwait"], [])]
+
+/-! ### the FSM callbacks over the configured pass -/
+
+/-- `beforeEvent` with the configured pass. -/
+def beforeEventOf (c : RunCfg) (env : Env) (hooks : List Hook) (e : Ev) (rnFail : Bool) : Env × List Step × Option Result :=
+  let m := Moment.before e
+  let r1 := handleHooksOf c env hooks m negW
+  if r1.2.2 > 0 then
+    (r1.1, [Step.mark m.name false] ++ r1.2.1 ++ [Step.mark m.name true], some (.cancelledHooks r1.2.2 m))
+  else
+    let bk := bkBefore r1.1 e rnFail
+    if bk.2.2 then
+      (bk.1, [Step.mark m.name false] ++ r1.2.1, some .cancelledRn)
+    else
+      let r2 := handleHooksOf c bk.1 hooks m posW
+      (r2.1, [Step.mark m.name false] ++ r1.2.1 ++ bk.2.1 ++ r2.2.1 ++ [Step.mark m.name true],
+        if r2.2.2 > 0 then some (.cancelledHooks r2.2.2 m) else none)
+
+/-- `leaveState` with the configured pass. -/
+def leaveStateOf (c : RunCfg) (env : Env) (hooks : List Hook) (e : Ev) (bodyOk : Bool) : Env × List Step × Option Result :=
+  let src := env.st
+  let m := Moment.leave src
+  let r1 := handleHooksOf c env hooks m negW
+  let bk := if src = .RUNNING then setSoeorIfEmpty r1.1 e.name false else (r1.1, [])
+  if r1.2.2 > 0 then
+    (bk.1, [Step.mark m.name false] ++ r1.2.1 ++ bk.2 ++ [Step.mark m.name true], some (.cancelledHooks r1.2.2 m))
+  else
+    let r2 := handleHooksOf c bk.1 hooks m posW
+    let pre := [Step.mark m.name false] ++ r1.2.1 ++ bk.2 ++ r2.2.1 ++ [Step.mark m.name true]
+    if r2.2.2 > 0 then (r2.1, pre, some (.cancelledHooks r2.2.2 m))
+    else
+      let tname := "tasks_" ++ e.name
+      let env := r2.1
+      let env := if !bodyOk ∧ e = .START_ACTIVITY then { env with rn := 0 } else env
+      (env, pre ++ [Step.mark tname false, Step.body e bodyOk, Step.mark tname true],
+        if bodyOk then none else some .cancelledBody)
+
+/-- `enterState` with the configured pass. -/
+def enterStateOf (c : RunCfg) (env : Env) (hooks : List Hook) : Env × List Step × List (Nat × Moment) :=
+  let m := Moment.enter env.st
+  let r1 := handleHooksOf c env hooks m negW
+  let r2 := handleHooksOf c r1.1 hooks m posW
+  (r2.1, [Step.mark m.name false] ++ r1.2.1 ++ r2.2.1 ++ [Step.mark m.name true],
+    (if r1.2.2 > 0 then [(r1.2.2, m)] else []) ++ (if r2.2.2 > 0 then [(r2.2.2, m)] else []))
 
 /-- The bookkeeping of `after_event` as it was: the STOP_ACTIVITY branch ticks the clock and writes
     run_end_completion_time_ms whatever it holds (and publishes the end-of-run event). -/
@@ -42,34 +127,34 @@ def bkAfterLegacy (env : Env) (e : Ev) (failed : Bool) : Env × List Step :=
 def bkAfterOf (c : RunCfg) (env : Env) (e : Ev) (failed : Bool) : Env × List Step :=
   if c.stopStampGuarded then bkAfter env e failed else bkAfterLegacy env e failed
 
-/-- `afterEvent` with the configured bookkeeping. -/
+/-- `afterEvent` with the configured pass and bookkeeping. -/
 def afterEventOf (c : RunCfg) (env : Env) (hooks : List Hook) (e : Ev) (errSoFar : List (Nat × Moment)) :
     Env × List Step × List (Nat × Moment) :=
   let m := Moment.after e
-  let r1 := handleHooks env hooks m negW
+  let r1 := handleHooksOf c env hooks m negW
   let err1 := if r1.2.2 > 0 then [(r1.2.2, m)] else errSoFar
   let bk := bkAfterOf c r1.1 e (!err1.isEmpty)
-  let r2 := handleHooks bk.1 hooks m posW
+  let r2 := handleHooksOf c bk.1 hooks m posW
   let errs := (if r1.2.2 > 0 then [(r1.2.2, m)] else []) ++ (if r2.2.2 > 0 then [(r2.2.2, m)] else [])
   let errFinal := if errs.isEmpty then errSoFar else errs
   let fin := finAfter r2.1 e
   (fin.1, [Step.mark m.name false] ++ r1.2.1 ++ bk.2 ++ r2.2.1 ++ fin.2 ++ [Step.mark m.name true], errFinal)
 
-/-- `fsmEvent` with the configured after_event. -/
+/-- `fsmEvent` with the configured callbacks. -/
 def fsmEventOf (c : RunCfg) (env : Env) (hooks : List Hook) (e : Ev) (bodyOk rnFail : Bool) : Env × List Step × Result :=
   match dst? e env.st with
   | none => (env, [], .illegal)
   | some d =>
-    let b := beforeEvent env hooks e rnFail
+    let b := beforeEventOf c env hooks e rnFail
     match b.2.2 with
     | some r => (b.1, b.2.1, r)
     | none =>
-      let l := leaveState b.1 hooks e bodyOk
+      let l := leaveStateOf c b.1 hooks e bodyOk
       match l.2.2 with
       | some r => (l.1, b.2.1 ++ l.2.1, r)
       | none =>
         let env := { l.1 with st := d }
-        let en := enterState env hooks
+        let en := enterStateOf c env hooks
         let af := afterEventOf c en.1 hooks e en.2.2
         (af.1, b.2.1 ++ l.2.1 ++ [Step.setState d] ++ en.2.1 ++ af.2.1,
           if af.2.2.isEmpty then .ok else .reported af.2.2)
@@ -84,11 +169,38 @@ def controlApiOf (c : RunCfg) (env : Env) (hooks : List Hook) (e : Ev) (bodyOk r
     if g.2.2.isOk || g.1.st == .DONE then (g.1, r.2.1 ++ gs, r.2.2)
     else ({ g.1 with st := .ERROR }, r.2.1 ++ gs ++ [Step.setState .ERROR], r.2.2)
 
+/-- `teardown` with the configured pass (its leave_<state> hooks go through handleHooks with every weight). -/
+def teardownOf (c : RunCfg) (env : Env) (hooks : List Hook) (force relOk1 relOk2 : Bool) (nTasks : Nat) : Env × List Step × Result :=
+  if env.st = .DONE then (env, [], .teardownRefused)
+  else if env.st ≠ .STANDBY ∧ env.st ≠ .DEPLOYED ∧ !force then (env, [], .teardownRefused)
+  else
+    let h := handleHooksOf c env hooks (.leave env.st) allW
+    let env := h.1
+    let ts : Env × List Step :=
+      if env.st = .RUNNING then
+        let a := setSoeorIfEmpty env "TEARDOWN" true
+        let b := setEoeorIfEmpty a.1 "TEARDOWN" .started
+        (b.1, a.2 ++ b.2)
+      else (env, [])
+    let env := ts.1
+    if !relOk1 then (env, h.2.1 ++ ts.2 ++ [Step.release nTasks false], .releaseFailed)
+    else
+      let ws := sortDedup ((hooks.filter (fun h => h.trig = .destroy ∨ h.trig = .afterDestroy)).map (·.tw))
+      let d := destroyWeights env hooks ws
+      let env := d.1
+      let cancelled := allPending env
+      let env := { env with cancelled := env.cancelled ++ cancelled }
+      let pre := h.2.1 ++ ts.2 ++ [Step.release nTasks true] ++ d.2 ++ [Step.cancel cancelled]
+      if !relOk2 then (env, pre ++ [Step.release 0 false], .releaseFailed)
+      else
+        let res := if h.2.2 > 0 ∧ ws.isEmpty then Result.reported [(h.2.2, Moment.leave env.st)] else .ok
+        ({ env with st := .DONE, gone := true }, pre ++ [Step.release 0 true, Step.setState .DONE], res)
+
 /-- `step` over the configured machine. -/
 def stepOf (c : RunCfg) (hooks : List Hook) (nTasks : Nat) (env : Env) : Req → Env × List Step × Result
   | .try_ e b r => fsmEventOf c env hooks e b r
   | .control e b r => if env.gone then (env, [], .notFound) else controlApiOf c env hooks e b r
-  | .teardown f r1 r2 => if env.gone then (env, [], .notFound) else teardown env hooks f r1 r2 nTasks
+  | .teardown f r1 r2 => if env.gone then (env, [], .notFound) else teardownOf c env hooks f r1 r2 nTasks
 
 def finalEnvOf (c : RunCfg) (hooks : List Hook) (nTasks : Nat) (env : Env) (qs : List Req) : Env :=
   qs.foldl (fun e q => (stepOf c hooks nTasks e q).1) env
